@@ -20,6 +20,9 @@ def run(ctx):
     # the hundreds of match attempts made while scanning a file
     rich = fr.on_files(fr.sample(ctx, vecs, 16 if quick else None), ["corpus/rich/r1.go", "corpus/rich/r2.go", "corpus/nearmiss/nm_expr.go"], "rich corpus")
     results += fr.replay_and_judge(ctx, "rich", rich, None, shards=8)
+    mvecs, msubj, _ = fr.universe_vectors(ctx, "multi", dict(maxargs=2, maxlist=4 if quick else 5), "C02")
+    results += fr.replay_and_judge(ctx, "multi", mvecs, msubj, shards=8)
+    results += fr.replay_and_judge(ctx, "inter", fr.text_vectors(ctx, "corpus/inter/vectors.json", "C02"), None, shards=8)
     st = fr.classify(ctx, results, known)
     states, trans = fr.mc_counts(ctx)
     cov = dict(states=states, transitions=trans, traces_validated_against_impl=st["cases"],
